@@ -23,6 +23,8 @@ func variants() []Variant {
 			{"tka", "utc", 0, 2, 3, true}, // symbol of the first, fresh min unit
 			{"tkc", "uta", 0, 2, 3, true}, // fresh symbol, min unit of the first
 			{"uta", "tka", 0, 2, 3, true}, // crossed with the first
+			{"uta", "uta", 0, 2, 3, true}, // single-name token (like the native one) on the first's min unit
+			{"tka", "tka", 0, 2, 3, true}, // single-name token on the first's symbol
 			{nativeSymbol, "utd", 0, 2, 3, true},
 			{"tkd", nativeMinUnit, 0, 2, 3, true},
 		},
@@ -90,7 +92,7 @@ func Parts() []mc.Part {
 	var ps []mc.Part
 	for _, v := range variants() {
 		// (fee variants set parameters through the gov authority in their fixture: not expressible as signed txs, skipped there)
-		ps = append(ps, mc.ExplorePartC(v.Name, New(v), v.Quick, v.Thorough, false, rule,
+		ps = append(ps, mc.ExplorePartC(v.Name, mc.WithRestart(New(v), "token"), v.Quick, v.Thorough, false, rule,
 			&mc.ConfOpts{Stores: []string{"token"}, SkipDenoms: map[string]bool{"stake": true}, MaxPaths: 60}))
 	}
 	return ps
